@@ -46,9 +46,7 @@ func NewProvider(fs filesystem.Filespace, helpersPath, layoutPath, viewPath, ext
 
 // Base return base template (with loaded helpers)
 func (provider *Provider) Base() (*template.Template, error) {
-	if provider.baseTemplate != nil {
-		return provider.baseTemplate, nil
-	}
+	// the cached template is read under the mutex (see base)
 	return provider.base()
 }
 
@@ -83,15 +81,11 @@ func (provider *Provider) base() (baseTemplate *template.Template, err error) {
 
 // Layout return template for named layout (with loaded helpers and layout definitions)
 func (provider *Provider) Layout(name string) (tmpl *template.Template, err error) {
-	var (
-		ok bool
-	)
 	if name == "" {
 		name = goathtml.DefaultLayout
 	}
-	if tmpl, ok = provider.layouts[name]; ok {
-		return tmpl, nil
-	}
+	// the cache map is read under the mutex (see layout): an unlocked read
+	// concurrent with the first store crashes the process
 	return provider.layout(name)
 }
 
@@ -135,7 +129,6 @@ func (provider *Provider) layout(name string) (layoutTemplate *template.Template
 // View return template for view by name. It contains selected layout definitions and helpers
 func (provider *Provider) View(layoutName, viewName string) (tmpl *template.Template, err error) {
 	var (
-		ok  bool
 		key string
 	)
 	if layoutName == "" {
@@ -145,9 +138,7 @@ func (provider *Provider) View(layoutName, viewName string) (tmpl *template.Temp
 		return nil, goaterr.Errorf("goathtml.Provider: A view name is required")
 	}
 	key = layoutName + ":" + viewName
-	if tmpl, ok = provider.views[key]; ok {
-		return tmpl, nil
-	}
+	// the cache map is read under the mutex (see view)
 	return provider.view(layoutName, viewName, key)
 }
 
